@@ -83,6 +83,8 @@ def find_kill_index(events, paths, k, p, at):
         return None
     table = {
         "start": lambda e: e.get("path") == d,
+        "reason": lambda e: e.get("path") == d and e["e"] != "resetWorkspaceState",
+        "store": lambda e: _match(e, "setDirectoryState", d),
         "forge": lambda e: _match(e, "setResultHash", d, "ts") or _match(e, "runBegin", d),
         "inval": lambda e: _match(e, "resetWorkspaceState", d, "none"),
         "prune": lambda e: _match(e, "emptyDirectory", d),
@@ -120,8 +122,8 @@ class Oracle:
         self.mem = {}
         self.builds = 0
 
-    def clean(self, proj, target="app"):
-        key = hashlib.sha1(projgen.proj_key(proj).encode()).hexdigest()
+    def clean(self, proj, target="app", define=False):
+        key = hashlib.sha1((projgen.proj_key(proj) + str(define)).encode()).hexdigest()
         if key in self.mem:
             return self.mem[key]
         f = os.path.join(self.cache, key + ".json")
@@ -136,11 +138,11 @@ class Oracle:
         shutil.rmtree(d, ignore_errors=True)
         os.makedirs(d)
         try:
-            files, srcs = projgen.render_bobbuild(proj)
+            files, srcs = projgen.render_bobbuild(proj, define)
             bobrun.write_files(d, files)
             for sub, fs in srcs.items():
                 bobrun.sync_tree(d, sub, fs)
-            r = bobrun.run_bob(d, ["dev", target], record=False)
+            r = bobrun.run_bob(d, ["dev", target] + (["-DV=%s" % proj["V"]] if define else []), record=False)
             self.builds += 1
             if r.rc != 0:
                 raise RuntimeError("clean build of oracle failed (rc=%s):\n%s" % (r.rc, r.out[-2000:]))
@@ -163,7 +165,7 @@ class Oracle:
 
 
 class BehaviourReplay:
-    def __init__(self, hist, workdir, oracle, release=False, jobs=1, enumerate_kills=False, seed=0):
+    def __init__(self, hist, workdir, oracle, release=False, jobs=1, enumerate_kills=False, seed=0, define=False):
         self.hist = hist
         self.ws = os.path.join(workdir, "ws")
         self.ctl = os.path.join(workdir, "ctl")
@@ -174,6 +176,8 @@ class BehaviourReplay:
         self.release = release
         self.jobs = jobs
         self.enumerate_kills = enumerate_kills
+        self.define = define
+        self.proj = None
         self.violations = []
         self.drift = []
         self.invocations = 0
@@ -185,10 +189,13 @@ class BehaviourReplay:
         c = ["build" if self.release else "dev", "app"]
         if self.jobs > 1:
             c += ["-j", str(self.jobs)]
+        if self.define and self.proj is not None:
+            c += ["-DV=%s" % self.proj["V"]]
         return c + list(extra)
 
     def apply(self, proj):
-        files, srcs = projgen.render_bobbuild(proj)
+        self.proj = proj
+        files, srcs = projgen.render_bobbuild(proj, self.define)
         bobrun.write_files(self.ws, files)
         for sub, fs in srcs.items():
             bobrun.sync_tree(self.ws, sub, fs)
@@ -198,6 +205,7 @@ class BehaviourReplay:
         detail["log"] = self.log[-30:]
         detail["mode"] = "release" if self.release else "dev"
         detail["jobs"] = self.jobs
+        detail["define"] = self.define
         self.violations.append((sig, detail))
 
     def invoke(self, kill_at=None, ws=None):
@@ -211,7 +219,7 @@ class BehaviourReplay:
             self.viol("invocation-failed:" + what, rc=r.rc, out=r.out[-3000:])
             return False
         paths = bobrun.query_paths(self.ws, "app", self.release)
-        want = self.oracle.clean(proj)
+        want = self.oracle.clean(proj, define=self.define)
         ok = True
         for name, ps in paths.items():
             pkg = name.split("/")[-1]
